@@ -33,12 +33,15 @@ var c10Atoms = append(append([]ora.Atom{}, c09Atoms...),
 	ora.Atom{Name: "QREF", Gen: func(t *ora.Tok) string {
 		return "<p>" + t.W(14) + " <a href=\"?x=" + t.U() + "\">" + t.W(2) + "</a> <a href=\"//cdn.example.net/" + t.U() + "\">" + t.W(1) + "</a> " + t.W(6) + "</p><img src=\"?img=" + t.U() + "\" width=\"400\" height=\"300\"><div class=\"pagination\"><a href=\"?page=1\">1</a> 2 <a href=\"?page=3\">3</a></div>"
 	}},
+	ora.Atom{Name: "BYL", Gen: func(t *ora.Tok) string {
+		return "<div><span class=\"byline-name\">" + t.W(2) + "<script>var a=1;</script></span></div><div class=\"dateline\">" + t.W(2) + "<style>.d{}</style></div>"
+	}},
 	ora.Atom{Name: "SCH", Gen: func(t *ora.Tok) string {
 		return "<div itemscope itemtype=\"http://schema.org/Article\"><span itemprop=\"headline\">" + t.W(3) + "</span><a rel=\"author\" href=\"/a\">" + t.W(2) + "</a><img itemprop=\"image\" src=\"i/" + t.U() + ".jpg\"></div>"
 	}},
 )
 
-var c10Alphabet = []string{"FONT", "JS1", "NOS", "PIC", "PICf", "LAZY", "LAZYs", "YT", "TW", "VIDs", "TBLd", "TBLi", "ATTRS", "FIGl", "IMGrel", "PGR", "SCH", "HIDs", "BR", "QREF"}
+var c10Alphabet = []string{"FONT", "JS1", "NOS", "PIC", "PICf", "LAZY", "LAZYs", "YT", "TW", "VIDs", "TBLd", "TBLi", "ATTRS", "FIGl", "IMGrel", "PGR", "SCH", "HIDs", "BR", "QREF", "BYL"}
 
 const c10Fetch = "http://example.com/fetched/page-2.html"
 
@@ -94,7 +97,8 @@ func c10Enumerate(tier string, emit func(*eng.Case)) {
 	})
 	starts := ora.StdSkeletons(atoms)[:1]
 	ora.EnumDocs(starts, al, maxE, func(d *ora.DocModel, edits int) {
-		html := d.Render(atoms)
+		// a root element with attributes (namespace declarations after an ordinary attribute)
+		html := strings.Replace(d.Render(atoms), "<html>", "<html lang=\"en\" xmlns:og=\"http://ogp.me/ns#\" class=\"no-js\" xmlns:fb=\"http://ogp.me/ns/fb#\">", 1)
 		desc := d.Describe(atoms)
 		for _, on := range c10OptNames {
 			for _, h := range hists {
@@ -276,7 +280,7 @@ func init() {
 	eng.Register(&eng.Prop{
 		ID:        "C10",
 		DesignRef: "§5 C10",
-		Rule: "documents = S1 with <= 1 (quick) / <= 2 (thorough) insertions over 20 atoms in which the library rewrites nodes (font, javascript: anchor, noscript image, picture, lazy images (with and without a placeholder src that gets overwritten), embeds, video, tables, attribute-laden elements, relative links, pager, schema.org item); x options {nil, URL, URL+PageNumber, all log flags, URL with userinfo/escaped path + SkipPagination, non-nil options without URL (plain and with flags), URLs with trailing slash, escaped path and fragment under each pagination algorithm, URLs without a path} x every history of <= 3 calls over entry points {Apply(document), Apply(attached sub-element), ApplyForURL via an in-process RoundTripper, Apply(document node with several element children)} reusing one tree and one *Options. " +
+		Rule: "documents = S1 with <= 1 (quick) / <= 2 (thorough) insertions over 21 atoms in which the library rewrites nodes (font, javascript: anchor, noscript image, picture, lazy images (with and without a placeholder src that gets overwritten), embeds, video, tables, attribute-laden elements, relative links, pager, schema.org item); x options {nil, URL, URL+PageNumber, all log flags, URL with userinfo/escaped path + SkipPagination, non-nil options without URL (plain and with flags), URLs with trailing slash, escaped path and fragment under each pagination algorithm, URLs without a path} x every history of <= 3 calls over entry points {Apply(document), Apply(attached sub-element), ApplyForURL via an in-process RoundTripper, Apply(document node with several element children)} reusing one tree and one *Options. " +
 			"Oracle after every call: structural snapshot of the whole tree (types, names, atoms, attributes, parent/child/sibling links) unchanged; no hooked write (field assignment or DOM mutator) touched a caller-owned node; Options and *OriginalURL unchanged (including the pointer); repeated calls give the same result; ApplyForURL reports the fetched address. Non-trivial = history of >= 2 calls or non-nil options.",
 		Enumerate: c10Enumerate,
 		Check:     c10Check,
